@@ -1,0 +1,24 @@
+//go:build verif
+
+package rogger
+
+import "sync/atomic"
+
+// Verification hook (only compiled with -tags verif): lets a test harness park the
+// background flusher between its non-blocking and its blocking poll of the log queue.
+
+var verifYieldFn atomic.Value // func()
+
+func verifYield() {
+	if f, ok := verifYieldFn.Load().(func()); ok && f != nil {
+		f()
+	}
+}
+
+// VerifSetYield installs (or, with nil, removes) the function called at the yield point.
+func VerifSetYield(f func()) {
+	if f == nil {
+		f = func() {}
+	}
+	verifYieldFn.Store(f)
+}
